@@ -103,7 +103,7 @@ PROPS = {
     'C11': dict(
         Q=True,
         I=['c'],
-        K=dict(quick=['c11_none_n7', 'c11_prev_n7', 'c11_interleaved_n2'], thorough=['c11_none_n8', 'c11_prev_n8', 'c11_interleaved_n4']),
+        K=dict(quick=['c11_none_n7', 'c11_prev_n7'], thorough=['c11_none_n8', 'c11_prev_n8', 'c11_interleaved_n2', 'c11_interleaved_n4']),
         S=dict(quick=[], thorough=['s_reads_snapdata', 's_reads_byid', 's_writes_snapshot', 's_reads_client']),
         bounds='as C10, followed by the real get_snapshot and get_child_version; one interfering AddVersion/AddSnapshot at transaction granularity, chain <= 4',
     ),
